@@ -51,5 +51,17 @@ Theorem C05_empty_sharing_key_unbound : forall (F : list N -> list N) (s : ashar
     then Ok {| cA := aA s; cM := []; cR := []; cT := None |} else Err.
 Proof. exact arecover_empty_key_unbound. Qed.
 
+(* the general mechanism behind both known findings' acceptance of an altered point / value: the key is bound only
+   through the plaintexts it yields.  If the first shares agree except for point and value and the two interpolated
+   keys decrypt (C, D) alike, the outcomes are equal; for n = |C| + |D| bytes a wrong key does so with probability
+   about 2^(-8n) - certainly for n = 0, once in 256 for a one-byte message without coins, negligibly from 16 bytes on *)
+Theorem C05_key_bound_through_plaintext : forall (F : list N -> list N) (s s' : ashare) (rest rest' : list ashare) (keyb keyb' : bytes),
+  aA s = aA s' -> aC s = aC s' -> aD s = aD s' -> aJ s = aJ s' ->
+  Shamir.recover (aA s) (map aS (s :: rest)) = Ok keyb -> Shamir.recover (aA s') (map aS (s' :: rest')) = Ok keyb' ->
+  (Params.adss_key_take <= length keyb)%nat -> (Params.adss_key_take <= length keyb')%nat ->
+  adec F (firstn Params.adss_key_take keyb) (aC s) (aD s) = adec F (firstn Params.adss_key_take keyb') (aC s) (aD s) ->
+  arecover F (s :: rest) = arecover F (s' :: rest').
+Proof. exact arecover_key_via_plaintext. Qed.
+
 Theorem C05_never_panics : forall (F : list N -> list N) (shs : list ashare), arecover F shs <> Panic.
 Proof. exact arecover_never_panics. Qed.
